@@ -623,6 +623,13 @@ class IrToWasmCompiler:
             store_op = self.store_opcodes[tree.name]
             self.emit(store_op, 0, 0)
             self.stack -= 2
+        elif tree.name == "MOVB":
+            # Copy a blob: destination address, source address, size
+            self.do_tree(tree[0])
+            self.do_tree(tree[1])
+            self.emit("i32.const", tree.value)
+            self.emit("memory.copy", 0, 0)
+            self.stack -= 2
         elif tree.name in self.load_opcodes:
             self.do_tree(tree[0])
             load_op = self.load_opcodes[tree.name]
